@@ -362,6 +362,11 @@ func (srv *Srv) write(req *SrvReq) {
 	tc := req.Tc
 	if (fid.Type & QTAUTH) != 0 {
 		tc := req.Tc
+		if tc.Count > req.Conn.Msize-IOHDRSZ {
+			req.RespondError(Etoolarge)
+			return
+		}
+
 		if op, ok := (req.Conn.Srv.ops).(AuthOps); ok {
 			n, err := op.AuthWrite(req.Fid, tc.Offset, tc.Data)
 			if err != nil {
